@@ -66,8 +66,11 @@ type Client struct {
 	closed  chan struct{}
 	rerr    error
 	nrecv   int64
-	OnFrame func(*Frame) // optional online monitor
+	onFrame atomic.Value // func(*Frame): optional online monitor
 }
+
+// SetOnFrame installs a callback invoked (on the reader goroutine) for every received frame.
+func (c *Client) SetOnFrame(f func(*Frame)) { c.onFrame.Store(f) }
 
 var clientSeq int32
 
@@ -137,8 +140,8 @@ func (c *Client) reader() {
 		if len(ws) > 0 {
 			ws[0] <- f
 		}
-		if c.OnFrame != nil {
-			c.OnFrame(f)
+		if cb, ok := c.onFrame.Load().(func(*Frame)); ok && cb != nil {
+			cb(f)
 		}
 	}
 	c.log.Add(mon.Event{Src: "client", K: "closed", Cl: c.ID, Note: fmt.Sprint(c.rerr)})
